@@ -27,15 +27,25 @@ def init_state(p, first5):
                  [0.0, p / 2.0, p, (1.0 + p) / 2.0, 1.0])
 
 
+def _div(a, b):
+    """IEEE division (python raises on division by zero; a malformed state handed to the model - e.g. two
+    markers at the same position - must not crash the monitor)."""
+    if b == 0:
+        if a != a or a == 0:
+            return float('nan')
+        return math.copysign(math.inf, a) * (1.0 if math.copysign(1.0, b) > 0 else -1.0)
+    return a / b
+
+
 def parabolic(q, n, i, d):
-    return q[i] + d / (n[i + 1] - n[i - 1]) * (
-        (n[i] - n[i - 1] + d) * (q[i + 1] - q[i]) / (n[i + 1] - n[i])
-        + (n[i + 1] - n[i] - d) * (q[i] - q[i - 1]) / (n[i] - n[i - 1]))
+    return q[i] + _div(d, n[i + 1] - n[i - 1]) * (
+        _div((n[i] - n[i - 1] + d) * (q[i + 1] - q[i]), n[i + 1] - n[i])
+        + _div((n[i + 1] - n[i] - d) * (q[i] - q[i - 1]), n[i] - n[i - 1]))
 
 
 def linear(q, n, i, d):
     j = i + int(d)
-    return q[i] + d * (q[j] - q[i]) / (n[j] - n[i])
+    return q[i] + _div(d * (q[j] - q[i]), n[j] - n[i])
 
 
 def step(S, x, events=None):
